@@ -9,9 +9,10 @@ import (
 
 // effSet is the set of heap keys a function may write (transitively), or "all".
 type effSet struct {
-	all  bool
-	keys map[string]bool
-	why  string
+	all   bool
+	keys  map[string]bool
+	fresh map[string]bool // keys written only inside objects allocated by the function itself
+	why   string
 }
 
 func (a *effSet) add(b *effSet) {
@@ -25,6 +26,19 @@ func (a *effSet) add(b *effSet) {
 	for k := range b.keys {
 		a.keys[k] = true
 	}
+	for k := range b.fresh {
+		if a.fresh == nil {
+			a.fresh = map[string]bool{}
+		}
+		a.fresh[k] = true
+	}
+}
+
+func (a *effSet) addFresh(k string) {
+	if a.fresh == nil {
+		a.fresh = map[string]bool{}
+	}
+	a.fresh[k] = true
 }
 
 // heap-pure standard library packages: functions in them only write memory reachable
@@ -46,10 +60,10 @@ func (e *Engine) effects(fn *ssa.Function) *effSet {
 	defer delete(e.effBusy, fn)
 	// iterate to a fixpoint because of recursion through the cache
 	for iter := 0; iter < 4; iter++ {
-		before := len(res.keys)
+		before := len(res.keys) + len(res.fresh)
 		wasAll := res.all
 		e.effectsOnce(fn, res)
-		if res.all == wasAll && len(res.keys) == before {
+		if res.all == wasAll && len(res.keys)+len(res.fresh) == before {
 			break
 		}
 	}
@@ -124,7 +138,7 @@ func (e *Engine) storeEffect(addr ssa.Value, res *effSet) {
 			// fresh object: invisible to the caller unless it escapes; over-approximate by type
 			et := x.Type().(*types.Pointer).Elem()
 			if _, isS := isStructType(et); !isS {
-				res.keys[cellKeyOf(so, et)] = true
+				res.addFresh(cellKeyOf(so, et))
 			}
 			return
 		case *ssa.FieldAddr:
@@ -138,7 +152,10 @@ func (e *Engine) storeEffect(addr ssa.Value, res *effSet) {
 				v = ia
 				continue
 			}
-			if al, ok := x.X.(*ssa.Alloc); ok && !al.Heap {
+			if al, ok := x.X.(*ssa.Alloc); ok {
+				if al.Heap {
+					res.addFresh(fieldKey(pt, s.Field(x.Field).Name()))
+				}
 				return
 			}
 			res.keys[fieldKey(pt, s.Field(x.Field).Name())] = true
